@@ -1,7 +1,7 @@
 SPECIFICATION BSpec
 CONSTANTS
   NAddr = 2
-  MaxObj = 4
+  MaxObj = 3
   MaxOps = 4
   MaxInflight = 1
   WithReplace = TRUE
